@@ -58,11 +58,12 @@ type params struct {
 	admin   bool // an admin thread changes the destination's address (a dial that hangs) while traffic flows
 	readdr  bool // an admin thread moves the destination to another, healthy address while the connection to the old endpoint (which never reads) is stuck in a write
 	remove  bool // an admin thread removes the destination from the route (Shutdown of a destination whose connection may be failing at that moment) while traffic flows
+	backlog bool // spooling on, the endpoint is absent while the first half of the traffic is handed off (it goes to the spool), then comes back as one that accepts and never reads: the backlog is unspooled into a connection that does not drain while the second half is handed off
 	spool   bool // spooling on (in-memory filesystem), lines enter the spool at the production pace of 500 us each
 }
 
 func (p params) String() string {
-	return fmt.Sprintf("endpoint=%s lines=%d iobuf=%d connbuf=%d early=%v late=%v admin=%v spool=%v remove=%v readdr=%v", behaviours[p.beh].name, p.nlines, p.iobuf, p.connbuf, p.early, p.late, p.admin, p.spool, p.remove, p.readdr)
+	return fmt.Sprintf("endpoint=%s lines=%d iobuf=%d connbuf=%d early=%v late=%v admin=%v spool=%v remove=%v readdr=%v%s", behaviours[p.beh].name, p.nlines, p.iobuf, p.connbuf, p.early, p.late, p.admin, p.spool, p.remove, p.readdr, map[bool]string{true: " backlog=true"}[p.backlog])
 }
 
 type exec struct {
@@ -136,6 +137,13 @@ func (e *exec) Body() {
 			if vrt.Choose(2, "sleep across a flush tick") == 1 {
 				vrt.Sleep(1100 * time.Millisecond)
 			}
+		}
+		if e.p.backlog && i == e.p.nlines/2 {
+			// the endpoint is back, but it only accepts: the reconnect (5 s ticker) succeeds and
+			// the spooled backlog is written into a connection that nobody drains
+			e.net.Up, e.net.Mode, e.net.SockBuf = true, destharn.ReadNever, 16
+			vrt.Sleep(6 * time.Second)
+			vrt.Quiesce()
 		}
 		t0, s0 := vrt.Elapsed(), vrt.Steps()
 		rt.Dispatch([]byte(l))
@@ -253,6 +261,13 @@ func main() {
 						scns = append(scns, &vrt.Scenario{Name: q.String(), Cfg: vrt.Config{MaxSteps: 60000, Horizon: 20 * time.Minute}, Model: vrt.CostDelay, Bound: bound,
 							New: func() vrt.Exec { return &exec{p: q} }})
 					}
+					if behaviours[b].name == "refused" && !early && iobuf == 8 {
+						q := p
+						q.spool, q.backlog, q.nlines = true, true, 12
+						// twelve lines and two connection generations: one deviation less than the short scenarios (100 000+ executions each otherwise)
+						scns = append(scns, &vrt.Scenario{Name: q.String() + fmt.Sprintf(" (bound %d)", bound-1), Cfg: vrt.Config{MaxSteps: 60000, Horizon: 20 * time.Minute}, Model: vrt.CostDelay, Bound: bound - 1,
+							New: func() vrt.Exec { return &exec{p: q} }})
+					}
 					if behaviours[b].name == "never-reads" && !early && iobuf == 8 && (connbuf == 1 || rep.Thorough()) {
 						q := p
 						q.readdr = true
@@ -277,7 +292,7 @@ func main() {
 	}
 	rep.Assume = []string{
 		"'returns within a bounded time' is decided as: returns in every schedule, in zero virtual time (maximal-progress virtual clock) and within a constant number of scheduler steps; wall-clock latency on a loaded host is outside the technique",
-		"the TCP endpoint is a model: refuse / answer the dial after 120 s / accept and read everything / accept and never read (16-byte socket buffer) / close after j writes",
+		"the TCP endpoint is a model: refuse / answer the dial after 120 s / accept and read everything / accept and never read (16-byte socket buffer) / close after j writes; with spooling also: absent, then back as one that accepts and never reads while a spooled backlog is waiting",
 		fmt.Sprintf("delay bound %d; 6 lines against connbuf 1-2, iobuf 8-64 bytes", bound),
 	}
 	e1 := &kit.E1{Rep: rep, Scenarios: scns, Deadline: rep.Deadline(150*time.Second, 25*time.Minute)}
